@@ -20,7 +20,7 @@ import c08_gen as GEN        # noqa: E402
 
 ID = "C08"
 DESIGN_REF = "DESIGN.md section 5, C08"
-LEAN_TARGETS = ["PV.C08.Thm"]
+LEAN_TARGETS = ["PV.C08.Thm", "PV.C08.ThmTok"]
 DRIVER = "drv_c08"
 HARNESS = {"bin": "pvh_c08", "features": "default"}
 PAREN_THEOREMS = [
@@ -72,6 +72,21 @@ THEOREMS = [
     "PV.C08.runs_bol_extend",
     "PV.C08.at_bol_extend",
     "PV.C08.at_rewritten_not_derivable",
+    "PV.C08.lexNumber_lay",
+    "PV.C08.consumeCharacter_lay_local",
+    "PV.C08.step_lay_local",
+    "PV.C08.lay_side_conditions_needed",
+    "PV.C08.runs_tok_extend",
+    "PV.C08.at_tok_extend",
+    "PV.C08.not_behindComment_of_noHash",
+    "PV.C08.not_behindComment_string",
+    "PV.C08.LayoutStep'.toLayoutStep",
+    "PV.C08.LayoutEq'.toLayoutEq",
+    "PV.C08.lex_layout_invariant_tok",
+    "PV.C08.lex_layout_invariant_runs_tok",
+    "PV.C08.layout_tree_invariant_tok",
+    "PV.C08.layoutEq_tok_comment_example",
+    "PV.C08.layoutEq_tok_bracket_example",
     "PV.C08.rule_eol_thm",
     "PV.C08.rule_blanks_thm",
     "PV.C08.rule_commentAfter_thm",
@@ -99,21 +114,29 @@ PARTIAL = [
     "from tokens to trees is proved on the REFERENCE parsers only (PV.Prog.parseProgram, PV.C11.parseRef); the LALRPOP "
     "automaton itself is not modelled — its agreement with the reference parsers is the PROG / C11 correspondence, and the real "
     "parser is judged directly by the layout differential",
-    "LayoutEq: the three rules at the start of a line (blank / comment-only line, blank tail, form feed) now need the "
+    "LayoutEq: the three rules at the start of a line (blank / comment-only line, blank tail, form feed) need the "
     "lexer-position hypothesis Spec.At for the ORIGINAL text only (for the rewritten text it is derived: at_bol_extend, from the "
-    "look-ahead lemma step_brk_local); the four rules behind a token (blanks, comment after code, backslash join, bracket break) "
-    "still carry At for the rewritten text: it cannot be derived from At for the original and the rule's side conditions "
-    "(at_rewritten_not_derivable: `x#c` + blank — the comment swallows the blank, position 3 is no step boundary in the "
-    "rewritten text, although the tokens are equal); deriving it needs 'the token in front of the place is not a comment and "
-    "ends for a reason that the inserted layout character also provides', a per-arm look-ahead analysis that is not done; "
-    "line ends (eol) and BOM are unconditional",
+    "look-ahead lemma step_brk_local). The four rules behind a token (blanks, comment after code, backslash join, bracket break): "
+    "LayoutEq' (AtTok.lean) has them with hypotheses on the ORIGINAL text only WHEN THE TEXT BEHIND THE PLACE STARTS WITH A LAYOUT "
+    "CHARACTER (blank, tab, form feed, #, backslash, CR, LF: trailing blanks / comments in front of the line end, blanks in front "
+    "of a comment or backslash, a join or bracket break in front of a blank) under explicit side conditions — pre does not end "
+    "with a blank (blanks), no LF directly behind a CR (bracket break), the place is not BehindComment (blanks, comment, join; a "
+    "comment swallows everything up to the line end: at_rewritten_not_derivable, lay_side_conditions_needed) — At for the rewritten "
+    "text is derived (at_tok_extend, from step_lay_local: no step looks beyond the first layout character and all layout characters "
+    "end the same tokens). STILL with At for the rewritten text as a hypothesis (LayoutEq only): the same four rules directly in "
+    "front of a token (`x+y` -> `x +y`, `f(a)` -> `f(⏎a)`) or at the very end of the text — needs the look-ahead lemma with an "
+    "arbitrary follower instead of a layout character on the original side (per sub-lexer: 'a token that ends in front of ANY "
+    "character ends in front of a layout character', the number lexer being the long part); blanks / comments behind a comment "
+    "(`x#c` + blank: tokens equal, but not through the splice argument); line ends (eol) and BOM are unconditional",
     "re-indentation (lex_reindent_invariant): proved for texts related by PV.C08.Reindent — logical lines are read off the "
     "lexer's run on the ORIGINAL text, the new run of blanks of every line must be free of 'tab after space' (measure = some) "
     "and stand in the same compare_strict relation to EVERY open block of its own text as the old one (SimLevel; more than the "
     "lexer looks at: levels below the matching one are compared too); a line whose CR line end would fuse with an LF at the "
     "start of the next re-indented line is excluded",
     PAREN_MISSING,
-    "default build only (cfg.fullLexer = false); Unicode tables are parameters constrained by UpOk",
+    "default build only (cfg.fullLexer = false); Unicode tables are parameters constrained by UpOk (and, for the LayoutEq' "
+    "theorems, UpLay: no layout character is XID_Continue — true of the real tables and of the drivers' ASCII instantiation: "
+    "asciiUp_lay)",
 ]
 RULE = ("request = one original program with its layout variants (layout) or one (original, variant) pair (lexpair); "
         "distinct = distinct request line; every request is non-trivial (variant text differs from the original)")
@@ -126,15 +149,16 @@ LEVEL_TEXT = ("Machine-checked Lean 4 theorems, for texts of every length. (1) L
               "backslash joins, line breaks inside brackets, and their compositions) and texts related by consistent "
               "re-indentation (other widths, tabs for spaces, per line an order-preserving change of level) lex to the same "
               "tokens incl. INDENT/DEDENT and the same kind of end (same first error kind); the line-end rule is proved globally "
-              "by walking every function of the model; for rules at the start of a line and for re-indentation only the run on "
-              "the ORIGINAL text is assumed. (2) Reference parsers: equal erased token streams give equal trees "
+              "by walking every function of the model; for rules at the start of a line, for re-indentation, and (LayoutEq') for "
+              "the rules behind a token acting in front of a layout character, only the run on the ORIGINAL text is assumed. (2) Reference parsers: equal erased token streams give equal trees "
               "(layout_tree_invariant), and one redundant pair of parentheses around a complete operand gives the same tree at "
               "every level of the precedence chain and in the listed operand positions (paren_*). The lexer model is tied to the "
               "real lexer on (original, variant) pairs on every run, and the real PARSER is judged directly: every "
               "CPython-validated layout variant (incl. re-indentation and redundant parentheses) of generated programs and of "
               "the CPython standard library must give the same acceptance and the same range-erased tree.")
 LEVEL_NOTE = ("Not proved: the LALRPOP automaton (reference parsers are tied to it by correspondence), At for the rewritten "
-              "text of the four rules behind a token (witness: cannot be derived), parenthesis positions listed as missing. "
+              "text of the four rules behind a token when they act directly in front of a token or at the end of the text (derived, "
+              "under explicit side conditions, in front of a layout character; witness that the comment condition is needed), parenthesis positions listed as missing. "
               "Trusted: Lean kernel, CPython 3.11.7 as judge of layout-only, the rewriter/generator/harness, the PROG and C11 "
               "correspondence for the reference parsers.")
 
